@@ -407,10 +407,16 @@ impl SvgElement {
                     .ok_or_else(|| SvgdxError::ReferenceError(elref))?;
                 if let Some(sz) = ctx.get_element_size(el)? {
                     p.update_size(&sz);
-                    if el.name == "circle" || el.name == "ellipse" {
-                        // The referenced element is defined by its center,
-                        // but use elements are defined by top-left pos.
-                        p.translate(sz.0 / 4., sz.1 / 4.);
+                    // The x / y of a use element translate the target from wherever
+                    // it is drawn, and are kept as given. A position given through the
+                    // centre or far edge locates the instance's bounding box, so it
+                    // must allow for the top-left of the target not being the origin.
+                    if let Some(target_bb) = ctx.get_element_bbox(el)? {
+                        let (tx, ty) = target_bb.locspec(LocSpec::TopLeft);
+                        p.translate(
+                            if self.has_attr("x") { 0. } else { -tx },
+                            if self.has_attr("y") { 0. } else { -ty },
+                        );
                     }
                 }
             }
